@@ -44,7 +44,8 @@ ASSUMPTIONS = ['single caller thread; CPython 3.12']
 
 SHAPES = ['fn', 'builtin', 'method_wrapper', 'callable_obj', 'cls_init',
           'cls_new', 'cls_both', 'cls_neither', 'cls_meta', 'cls_slots',
-          'namedtuple', 'abstract', 'cls_regmethod', 'cls_fn_attr', 'dataclass']
+          'namedtuple', 'abstract', 'cls_regmethod', 'cls_fn_attr', 'dataclass',
+          'fn_wraps_registered']
 APIS = ['configurable', 'register', 'external']
 MOD = 'ginsim_c13_mod'
 
@@ -137,6 +138,20 @@ class {n}:
   {n}_helper = {n}_helpers.{n}_helper
   def __init__(self, a=1, b=2):
     self.a, self.b = a, b
+''',
+    'fn_wraps_registered': '''
+import functools
+def {n}_inner(a=1, b=2):
+  """doc of the inner function"""
+  return ('{n}_inner', a, b)
+def {n}_deco(f):
+  @functools.wraps(f)
+  def wrapper(a=1, b=2):
+    return ('{n}',) + f(a, b)[1:]
+  return wrapper
+{n} = {n}_deco({n}_inner)
+{n}.__name__ = {n}.__qualname__ = '{n}'
+{n}.__doc__ = 'doc of {n}'
 ''',
     'dataclass': '''
 import dataclasses
@@ -237,7 +252,7 @@ def run(case):
 
   def call_result(obj, shape, *a, **k):
     out = obj(*a, **k)
-    if shape in ('fn', 'callable_obj'):
+    if shape in ('fn', 'callable_obj', 'fn_wraps_registered'):
       return out
     if shape in ('builtin', 'method_wrapper'):
       return out
@@ -256,6 +271,10 @@ def run(case):
         obj.meth = gin.register(obj.meth)
       if shape == 'cls_fn_attr':
         gin.register(getattr(obj, name + '_helper'))
+      if shape == 'fn_wraps_registered':
+        # an ordinary functools.wraps decorator around a function that is a
+        # configurable in its own right
+        gin.register(getattr(mod, name + '_inner'))
       kw = {}
       if shape in ('builtin', 'method_wrapper'):
         kw = {'name': name, 'module': MOD}
